@@ -99,12 +99,13 @@ def cache_widget_render(cls):
     Return a function that wraps the cls.render() method
     and fetches and stores canvases with CanvasCache.
     """
-    ignore_focus = bool(getattr(cls, "ignore_focus", False))
     fn = cls.render
 
     @functools.wraps(fn)
     def cached_render(self, size, focus=False):
-        focus = focus and not ignore_focus
+        # ask the widget, not the class that defines this render(): a subclass whose
+        # rendering depends on focus (e.g. Edit) also runs its parent's render() with it
+        focus = focus and not getattr(self, "ignore_focus", False)
 
         if canv := CanvasCache.fetch(self, cls, size, focus):
             return canv
@@ -168,12 +169,11 @@ def cache_widget_rows(cls):
     Return a function that wraps the cls.rows() method
     and returns rows from the CanvasCache if available.
     """
-    ignore_focus = bool(getattr(cls, "ignore_focus", False))
     fn = cls.rows
 
     @functools.wraps(fn)
     def cached_rows(self, size: tuple[int], focus: bool = False) -> int:
-        focus = focus and not ignore_focus
+        focus = focus and not getattr(self, "ignore_focus", False)
 
         if canv := CanvasCache.fetch(self, cls, size, focus):
             return canv.rows()
